@@ -18,6 +18,9 @@ def main():
     if a.tier:
         os.environ['VERIF_TIER'] = a.tier
     from harness import common
+    if a.id in ('--selftest', 'selftest'):
+        from harness import selftest
+        sys.exit(selftest.run())
     pid = a.id.upper()
     try:
         mod = importlib.import_module('harness.%s' % pid.lower())
